@@ -25,9 +25,12 @@ import (
 	"sort"
 	"strconv"
 	"strings"
+	"sync"
 	"time"
 
 	"git.metabarcoding.org/obitools/obitools4/obitools4/pkg/obialign"
+	"git.metabarcoding.org/obitools/obitools4/obitools4/pkg/obiiter"
+	"git.metabarcoding.org/obitools/obitools4/obitools4/pkg/obioptions"
 	"git.metabarcoding.org/obitools/obitools4/obitools4/pkg/obikmer"
 	"git.metabarcoding.org/obitools/obitools4/obitools4/pkg/obiseq"
 	"git.metabarcoding.org/obitools/obitools4/obitools4/pkg/obitools/obipairing"
@@ -497,6 +500,139 @@ func (c08) Gen(rng *rand.Rand, tier string, emit func(string)) {
 		emit(fmt.Sprintf("fm %d 4 0 %s %s %s %s", side, hx(frag[0:7]), hx(q(7, 93)), hx(frag[2:16]), hx(q(14, 0))))
 	}
 
+	// fast mode on an arena with a history (op fa): the seeded/C08-m1 shape first — the previous forward read
+	// holds, at another offset, the 4-mers of the part of B that extends beyond A
+	{
+		A := frag[0:30]
+		B := frag[10:50]
+		prev := append(append([]byte{}, frag[34:50]...), frag[0:8]...)
+		for _, cp := range []int{0, 1, 2, 3, 4, 5, 140, 143, 300} {
+			for _, rel := range []int{0, 1} {
+				emit(fmt.Sprintf("fa %d 0 0 0 %d %s %s %s %s %s", rel, cp, hx(A), hx(q(30, 40)), hx(B), hx(q(40, 30)), hx(prev)))
+				emit(fmt.Sprintf("fa %d 5 0 0 %d %s %s %s %s %s", rel, cp, hx(B[:25]), hx(q(25, 40)), hx(A), hx(q(30, 30)), hx(frag)))
+			}
+		}
+	}
+	// the obipairing command line (op cl): every option alone on the standard pair (overlap 20, one substitution),
+	// thresholds around the real overlap / identity, then random combinations
+	{
+		A := append([]byte{}, frag[0:40]...)
+		B := append([]byte{}, frag[20:60]...)
+		B[7] = 'a'
+		for _, t := range []string{"-", "--exact-mode", "--fast-absolute", "--without-stat", "-S", "--delta,0", "-D,1", "--min-overlap,20",
+			"--min-overlap,21", "--min-overlap,0", "--min-identity,0.95", "--min-identity,0.96", "-X,1", "-X,0", "--gap-penality,0.5",
+			"-G,3", "--penality-scale,0.5", "--penality-scale,1.5", "--exact-mode,--fast-absolute", "--exact-mode,--delta,0",
+			"--exact-mode,--without-stat,--min-overlap,21", "-S,--min-identity,0.96", "--fast-absolute,-X,0.5,-G,1,--penality-scale,1.5,-D,5"} {
+			emit(fmt.Sprintf("cl %s %s %s %s %s", t, hx(A), hx(q(40, 40)), hx(B), hx(q(40, 35))))
+			emit(fmt.Sprintf("cl %s %s %s %s %s", t, hx(frag[0:30]), hx(q(30, 40)), hx(frag[12:44]), hx(q(32, 40))))
+		}
+	}
+	ncl := 150
+	if tier == "thorough" {
+		ncl = 1500
+	}
+	for i := 0; i < ncl; i++ {
+		la, lb := 4+rng.Intn(c08Small-3), 4+rng.Intn(c08Small-3)
+		ov := 1 + rng.Intn(min(la, lb))
+		F := g.frag(la+lb-ov, []int{0, 0, 0, 1, 3}[rng.Intn(5)])
+		A := append([]byte{}, F[:la]...)
+		B := append([]byte{}, F[la-ov:]...)
+		if rng.Intn(3) == 0 {
+			A, B = B, A
+		}
+		if rng.Intn(2) == 0 {
+			A = g.mutate(A, 0.08, 0.02, 0.03)
+			B = g.mutate(B, 0.08, 0.02, 0.03)
+			if len(A) == 0 || len(A) > c08Small {
+				A = append([]byte{}, F[:la]...)
+			}
+			if len(B) == 0 || len(B) > c08Small {
+				B = append([]byte{}, F[la-ov:]...)
+			}
+		}
+		var t []string
+		if rng.Intn(2) == 0 {
+			t = append(t, "--exact-mode")
+		}
+		if rng.Intn(2) == 0 {
+			t = append(t, "--fast-absolute")
+		}
+		if rng.Intn(4) == 0 {
+			t = append(t, []string{"--without-stat", "-S"}[rng.Intn(2)])
+		}
+		if rng.Intn(2) == 0 {
+			t = append(t, []string{"--delta", "-D"}[rng.Intn(2)], strconv.Itoa([]int{0, 1, 5, 12}[rng.Intn(4)]))
+		}
+		if rng.Intn(3) > 0 {
+			t = append(t, "--min-overlap", strconv.Itoa([]int{0, 1, ov - 1 + rng.Intn(3), 10, 20, 45}[rng.Intn(6)]))
+		}
+		if rng.Intn(3) > 0 {
+			t = append(t, []string{"--min-identity", "-X"}[rng.Intn(2)], []string{"0", "1", "0.9", "0.5", "0.85", "0.95", "0.975", "1.0"}[rng.Intn(8)])
+		}
+		if rng.Intn(3) == 0 {
+			t = append(t, []string{"--gap-penality", "-G"}[rng.Intn(2)], []string{"2.0", "1", "0.5", "3", "0"}[rng.Intn(5)])
+		}
+		if rng.Intn(3) == 0 {
+			t = append(t, "--penality-scale", []string{"1.0", "0.5", "1.5"}[rng.Intn(3)])
+		}
+		rng.Shuffle(len(t), func(i, j int) {}) // options keep their argument next to them: no shuffling of tokens
+		ts := "-"
+		if len(t) > 0 {
+			ts = strings.Join(t, ",")
+		}
+		emit(fmt.Sprintf("cl %s %s %s %s %s", ts, hx(A), hx(g.quals(len(A))), hx(B), hx(g.quals(len(B)))))
+	}
+	nfa := 250
+	if tier == "thorough" {
+		nfa = 2500
+	}
+	for i := 0; i < nfa; i++ {
+		la, lb := 4+rng.Intn(c08Small-3), 4+rng.Intn(c08Small-3)
+		if i%9 == 0 {
+			la = 1 + rng.Intn(5)
+		}
+		ov := 1 + rng.Intn(min(la, lb))
+		F := g.frag(la+lb-ov, []int{0, 0, 0, 1, 3}[rng.Intn(5)])
+		A := append([]byte{}, F[:la]...)
+		B := append([]byte{}, F[la-ov:]...)
+		if rng.Intn(2) == 0 {
+			A, B = B, A
+		}
+		if rng.Intn(2) == 0 {
+			A = g.mutate(A, 0.05, 0.02, 0.02)
+			B = g.mutate(B, 0.05, 0.02, 0.02)
+			if len(A) == 0 {
+				A = []byte{'a'}
+			}
+			if len(B) == 0 {
+				B = []byte{'g'}
+			}
+			if len(A) > c08Small {
+				A = A[:c08Small]
+			}
+			if len(B) > c08Small {
+				B = B[:c08Small]
+			}
+		}
+		// previous forward read: the tail of B (beyond A) moved to another offset + random bases, or unrelated
+		var prev []byte
+		switch rng.Intn(3) {
+		case 0:
+			prev = g.frag(10+rng.Intn(100), 0)
+		case 1:
+			prev = append(append([]byte{}, B[len(B)/2:]...), g.frag(1+rng.Intn(20), 0)...)
+		default:
+			prev = append(g.frag(1+rng.Intn(9), 0), B...)
+		}
+		cp := []int{0, 1, 2, 3, 4, 5, 2 * (len(A) + len(B)), 2*(len(A)+len(B)) + 3, 600}[rng.Intn(9)]
+		gi, si := 0, 0
+		if rng.Intn(3) == 0 {
+			gi, si = rng.Intn(len(c08Gaps)), rng.Intn(len(c08Scales))
+		}
+		emit(fmt.Sprintf("fa %d %d %d %d %d %s %s %s %s %s", rng.Intn(2), []int{0, 1, 5}[rng.Intn(3)], gi, si, cp,
+			hx(A), hx(g.quals(len(A))), hx(B), hx(g.quals(len(B))), hx(prev)))
+	}
+
 	n, nbig, ncons, nfm := 1500, 60, 400, 300
 	if tier == "thorough" {
 		n, nbig, ncons, nfm = 9000, 500, 2500, 2500
@@ -822,6 +958,94 @@ type c08Case struct {
 	a0, b0                                      int
 	path                                        []int
 	side                                        int
+	toks                                        []string
+	stats                                       bool
+	gapV, scaleV                                float64
+}
+
+// cliNaive: the harness's own reading of the obipairing options it generates (independent of go-getoptions):
+// the INTENDED parameters, from which the data handed to the model (gap penalty, column scores) is computed
+func (cs *c08Case) cliNaive() bool {
+	cs.fast, cs.rel, cs.stats, cs.delta, cs.minov, cs.idn, cs.idd, cs.gapV, cs.scaleV = true, true, true, 5, 20, 9, 10, 2.0, 1.0
+	t := cs.toks
+	for i := 0; i < len(t); i++ {
+		val := func() (string, bool) {
+			if i+1 >= len(t) {
+				return "", false
+			}
+			i++
+			return t[i], true
+		}
+		switch t[i] {
+		case "--delta", "-D", "--min-overlap":
+			k := t[i]
+			v, ok := val()
+			n, err := strconv.Atoi(v)
+			if !ok || err != nil || n < 0 || n > 1000 {
+				return false
+			}
+			if k == "--min-overlap" {
+				cs.minov = n
+			} else {
+				cs.delta = n
+			}
+		case "--min-identity", "-X":
+			v, ok := val()
+			if !ok {
+				return false
+			}
+			ip, fp, has := strings.Cut(v, ".")
+			n, e1 := strconv.Atoi(ip)
+			if e1 != nil || n < 0 || len(fp) > 6 || (has && fp == "") {
+				return false
+			}
+			d := 1
+			for _, c := range fp {
+				if c < '0' || c > '9' {
+					return false
+				}
+				n, d = n*10+int(c-'0'), d*10
+			}
+			cs.idn, cs.idd = n, d
+		case "--gap-penality", "-G", "--penality-scale":
+			k := t[i]
+			v, ok := val()
+			x, err := strconv.ParseFloat(v, 64)
+			if !ok || err != nil || x < 0 || x > 10 {
+				return false
+			}
+			if k == "--penality-scale" {
+				cs.scaleV = x
+			} else {
+				cs.gapV = x
+			}
+		case "--without-stat", "-S":
+			cs.stats = false
+		case "--exact-mode":
+			cs.fast = false
+		case "--fast-absolute":
+			cs.rel = false
+		default:
+			return false
+		}
+	}
+	return true
+}
+
+var c08Comp = map[byte]byte{'a': 't', 't': 'a', 'c': 'g', 'g': 'c', 'r': 'y', 'y': 'r', 'm': 'k', 'k': 'm', 's': 's', 'w': 'w',
+	'b': 'v', 'v': 'b', 'd': 'h', 'h': 'd', 'n': 'n'}
+
+// c08RevComp: the read as the sequencer gives it (reverse strand), so that the worker's ReverseComplement restores B
+func c08RevComp(b, q []byte) ([]byte, []byte, bool) {
+	rb, rq := make([]byte, len(b)), make([]byte, len(q))
+	for i := range b {
+		c, ok := c08Comp[b[len(b)-1-i]]
+		if !ok {
+			return nil, nil, false
+		}
+		rb[i], rq[i] = c, q[len(q)-1-i]
+	}
+	return rb, rq, true
 }
 
 func c08Parse(c string) (*c08Case, bool) {
@@ -908,6 +1132,41 @@ func c08Parse(c string) (*c08Case, bool) {
 			return nil, false
 		}
 		cs.side, cs.gi, cs.si = v[0], v[1], v[2]
+		return cs, true
+	case "cl":
+		if len(f) != 6 || !hexes(f[2:6]) || len(cs.A) > c08Small || len(cs.B) > c08Small {
+			return nil, false
+		}
+		if f[1] != "-" {
+			cs.toks = strings.Split(f[1], ",")
+		}
+		if !cs.cliNaive() {
+			return nil, false
+		}
+		return cs, true
+	case "fa":
+		if len(f) != 11 {
+			return nil, false
+		}
+		var v [5]int
+		for i := 0; i < 5; i++ {
+			x, err := strconv.Atoi(f[1+i])
+			if err != nil || x < 0 {
+				return nil, false
+			}
+			v[i] = x
+		}
+		if v[0] > 1 || v[1] > 50 || v[2] >= len(c08Gaps) || v[3] >= len(c08Scales) || v[4] > 1000 || !hexes(f[6:10]) {
+			return nil, false
+		}
+		if len(cs.A) > c08Small || len(cs.B) > c08Small {
+			return nil, false
+		}
+		a0, ok := unhx(f[10])
+		if !ok || len(a0) == 0 || len(a0) > 400 {
+			return nil, false
+		}
+		cs.fast, cs.rel, cs.delta, cs.gi, cs.si, cs.side, cs.F = true, v[0] == 1, v[1], v[2], v[3], v[4], a0
 		return cs, true
 	case "bt":
 		if len(f) != 5 {
@@ -1063,7 +1322,22 @@ func c08ConsOracle(sig string, cs *c08Case, path []int, seq, qual []byte) (fails
 	return fails
 }
 
+var c08TableOnce sync.Once
+
+func bitsLen(v int) int {
+	n := 0
+	for v > 0 {
+		n++
+		v >>= 1
+	}
+	return n
+}
+
 var c08ColArena = obialign.MakePEAlignArena(1, 1)
+
+// arena and shift map of the `fa` cases: one worker's state, kept from case to case
+var c08FaArena = obialign.MakePEAlignArena(1, 1)
+var c08FaShifts = map[int]int{}
 
 // c08ColumnAlone: the consensus quality of the single column (a,qa)/(b,qb) computed by the real code
 func c08ColumnAlone(a, qa, b, qb byte) (q byte, ok bool) {
@@ -1133,6 +1407,183 @@ func (c08) Exec(c string) (string, []Fail) {
 		return fmt.Sprintf("c=%s q=%s m=%d", hx(seq), hx(qual), match), fails
 	}
 
+	if cs.op == "cl" {
+		stat("op:cl")
+		la, lb := len(cs.A), len(cs.B)
+		ref := &c08Ref{A: cs.A, QA: cs.QA, B: cs.B, QB: cs.QB, scale: cs.scaleV, g: obialign.VerifGapPenalty(cs.gapV, cs.scaleV)}
+		sc := make([]int, 0, la*lb)
+		for i := 0; i < la; i++ {
+			for j := 0; j < lb; j++ {
+				sc = append(sc, ref.s(i, j))
+			}
+		}
+		caseOverride = fmt.Sprintf("%s | %d %s %s", base, ref.g, hx(adj), c08Ints(sc))
+		rB, rQB, ok := c08RevComp(cs.B, cs.QB)
+		if !ok {
+			caseTrivial = true
+			return "bad-op", nil
+		}
+		var out *obiseq.BioSequence
+		res := guardT(20*time.Second, func() string {
+			obipairing.VerifResetOptions()
+			argv := append([]string{"obipairing", "-F", "verif_f.fastq", "-R", "verif_r.fastq"}, cs.toks...)
+			_, rest := obioptions.GenerateOptionParser(obipairing.OptionSet)(argv)
+			if len(rest) != 0 {
+				return "rest"
+			}
+			// one batch of two pairs for one worker: a previous pair (its forward read holds B, the arena and the
+			// 4-mer index keep its traces), then the pair of the case; reverse reads as the sequencer gives them
+			mk := func(id string, s, q []byte) *obiseq.BioSequence {
+				return obiseq.NewBioSequenceWithQualities(id, append([]byte(nil), s...), "", append([]byte(nil), q...))
+			}
+			q0 := make([]byte, la+lb)
+			for i := range q0 {
+				q0[i] = 30
+			}
+			p1 := mk("prev", append(append([]byte{}, cs.B...), cs.A...), q0)
+			p1.PairTo(mk("prev", rB, rQB))
+			s1 := mk("pair", cs.A, cs.QA)
+			s1.PairTo(mk("pair", rB, rQB))
+			it := obiiter.MakeIBioSequence()
+			it.Add(1)
+			go func() {
+				it.Push(obiiter.MakeBioSequenceBatch("src", 0, obiseq.BioSequenceSlice{p1, s1}))
+				it.Done()
+			}()
+			go it.WaitAndClose()
+			it.MarkAsPaired()
+			// the call of cmd/obitools/obipairing/main.go
+			paired := obipairing.IAssemblePESequencesBatch(it,
+				obipairing.CLIGapPenality(), obipairing.CLIPenalityScale(), obipairing.CLIDelta(), obipairing.CLIMinOverlap(),
+				obipairing.CLIMinIdentity(), obipairing.CLIFastMode(), obipairing.CLIFastRelativeScore(), obipairing.CLIWithStats(), 2)
+			for paired.Next() {
+				for _, o := range paired.Get().Slice() {
+					if o.Id() == "pair" {
+						out = o
+					}
+				}
+			}
+			if out == nil {
+				return "lost"
+			}
+			return "ok"
+		})
+		if res != "ok" {
+			addf("cli."+res, "obipairing %s: %s", strings.Join(cs.toks, " "), res)
+			return res, fails
+		}
+		an := out.Annotations()
+		md, _ := an["mode"].(string)
+		al, _ := an["ali_length"].(int)
+		ma, _ := an["seq_ab_match"].(int)
+		_, _, vnum, vden, _ := c08Vote(cs.A, cs.B, cs.rel)
+		stat("cl:" + md)
+		// oracle: the branch is decided by the thresholds of the command line, on the direct call with the intended parameters
+		direct := guardT(10*time.Second, func() string {
+			o := obipairing.AssemblePESequences(seqA, seqB, cs.gapV, cs.scaleV, cs.delta, cs.minov, float64(cs.idn)/float64(cs.idd),
+				cs.stats, false, cs.fast, cs.rel, obialign.MakePEAlignArena(la, lb), &map[int]int{})
+			m, _ := o.Annotations()["mode"].(string)
+			return m + " " + string(o.Sequence())
+		})
+		if direct != md+" "+string(out.Sequence()) {
+			addf("cli.options", "obipairing %s returns mode %s %q; AssemblePESequences with delta %d min-overlap %d min-identity %d/%d gap %v scale %v fast %v rel %v: %s",
+				strings.Join(cs.toks, " "), md, out.Sequence(), cs.delta, cs.minov, cs.idn, cs.idd, cs.gapV, cs.scaleV, cs.fast, cs.rel, direct)
+		}
+		if _, has := an["score"]; has != cs.stats {
+			addf("cli.without-stat", "statistics present %v, --without-stat given %v", has, !cs.stats)
+		}
+		if _, has := an["paring_fast_count"]; has && !cs.fast {
+			addf("cli.exact-mode", "--exact-mode: paring_fast_count present")
+		}
+		return fmt.Sprintf("%s s=%s q=%s ann=%s", md, hx(out.Sequence()), hx(out.Qualities()), c08Annotations(an, al, ma, vnum, vden)), fails
+	}
+
+	if cs.op == "fa" {
+		stat("op:fa")
+		gap, scale := c08Gaps[cs.gi], c08Scales[cs.si]
+		ref := &c08Ref{A: cs.A, QA: cs.QA, B: cs.B, QB: cs.QB, scale: scale, g: obialign.VerifGapPenalty(gap, scale)}
+		la, lb, cp := len(cs.A), len(cs.B), cs.side
+		var isLeft bool
+		var score, fastCount, over int
+		var fastScore float64
+		var path, buf []int
+		left := 0
+		res := guardT(10*time.Second, func() string {
+			// history: the previous pair of this worker had the forward read A0 (the 4-mer index keeps its positions),
+			// then the path buffer is what a pair of another size left (capacity cp, stale values)
+			q0 := make([]byte, len(cs.F))
+			for i := range q0 {
+				q0[i] = 40
+			}
+			prev := obiseq.NewBioSequenceWithQualities("P", cs.F, "", q0)
+			obialign.PEAlign(prev, seqB, gap, scale, true, cs.delta, cs.rel, c08FaArena, &c08FaShifts)
+			obialign.VerifSetPathBuffer(c08FaArena, cp, 4242)
+			l, sc, p, fc, ov, fsc := obialign.PEAlign(seqA, seqB, gap, scale, true, cs.delta, cs.rel, c08FaArena, &c08FaShifts)
+			isLeft, score, path, fastCount, over, fastScore = l, sc, append([]int(nil), p...), fc, ov, fsc
+			buf = obialign.VerifPathBuffer(c08FaArena)
+			left = len(c08FaShifts)
+			return "ok"
+		})
+		for k := range c08FaShifts {
+			delete(c08FaShifts, k)
+		}
+		sc := make([]int, 0, la*lb)
+		for i := 0; i < la; i++ {
+			for j := 0; j < lb; j++ {
+				sc = append(sc, ref.s(i, j))
+			}
+		}
+		caseOverride = fmt.Sprintf("%s | %d %s", base, ref.g, c08Ints(sc))
+		if res != "ok" {
+			addf("pealign.fast-arena-"+res, "PEAlign %s on a reused arena (path buffer of %d cells)", res, cp)
+			c08FaArena = obialign.MakePEAlignArena(1, 1)
+			return res, fails
+		}
+		shift, vcount, vnum, vden, _ := c08Vote(cs.A, cs.B, cs.rel)
+		_ = shift
+		fsStr := "-1"
+		if vnum < 0 {
+			if fastScore != -1.0 {
+				fsStr = "?" + strconv.FormatUint(math.Float64bits(fastScore), 16)
+			}
+		} else if fastScore == float64(fastCount)/float64(vden) {
+			fsStr = fmt.Sprintf("%d/%d", fastCount, vden)
+		} else {
+			fsStr = "?" + strconv.FormatUint(math.Float64bits(fastScore), 16)
+		}
+		if fastCount != vcount {
+			addf("fast.vote-history", "paring_fast_count %d on the reused index, the naive vote on this pair counts %d", fastCount, vcount)
+		}
+		if !c08Consumes(path, la, lb) {
+			addf("path.fast-consumes", "path %s does not consume (%d, %d) exactly", c08PathStr(path), la, lb)
+		} else if ps := ref.pathScore(path, isLeft); ps != score {
+			addf("score.fast-path", "reported score %d, score recomputed along the path (%s scheme) %d", score, lr(isLeft), ps)
+		}
+		// the same pair on a brand new arena: nothing of the history may show
+		r2 := guardT(10*time.Second, func() string {
+			sh := map[int]int{}
+			l, s2, p, fc, ov, fsc := obialign.PEAlign(seqA, seqB, gap, scale, true, cs.delta, cs.rel, obialign.MakePEAlignArena(la, lb), &sh)
+			if l != isLeft || s2 != score || c08PathStr(p) != c08PathStr(path) || fc != fastCount || ov != over || fsc != fastScore {
+				return fmt.Sprintf("L=%v sc=%d p=%s fc=%d ov=%d", l, s2, c08PathStr(p), fc, ov)
+			}
+			return "ok"
+		})
+		if r2 != "ok" {
+			addf("arena.fast-history", "reused arena: L=%v sc=%d p=%s fc=%d ov=%d; fresh arena: %s", isLeft, score, c08PathStr(path), fastCount, over, r2)
+		}
+		if vcount >= 1 && !(vcount+3 < over) {
+			stat("fa:identical-branch")
+		} else {
+			stat("fa:dp-branch")
+		}
+		bufS := "grown"
+		if len(buf) == cp {
+			bufS = c08PathStr(buf)
+			stat("fa:buffer-compared")
+		}
+		return fmt.Sprintf("L=%d sc=%d p=%s fc=%d ov=%d fs=%s left=%d buf=%s", b2i(isLeft), score, c08PathStr(path), fastCount, over, fsStr, left, bufS), fails
+	}
+
 	if cs.op == "fm" {
 		left := cs.side == 1
 		stat("op:fm." + lr(left))
@@ -1198,9 +1649,37 @@ func (c08) Exec(c string) (string, []Fail) {
 			if v := ref.s(i, j); v > 1<<40 || v < -(1<<40) {
 				addf("score.table-nonfinite", "score of column %c/%d vs %c/%d is %d", cs.A[i], cs.QA[i], cs.B[j], cs.QB[j], v)
 				break
+			} else if v > 1<<20 || v < -(1<<20) {
+				// hypothesis of int_model_valid (Props/C08.lean): |score| <= 2^20
+				addf("score.bound-2pow20", "score of column %c/%d vs %c/%d is %d: beyond the bound under which the Int model is proved valid", cs.A[i], cs.QA[i], cs.B[j], cs.QB[j], v)
+				break
 			}
 		}
 	}
+
+	if ref.g > 1<<20 || ref.g < -(1<<20) {
+		addf("score.bound-2pow20", "gap penalty %d: beyond the bound under which the Int model is proved valid", ref.g)
+	}
+	c08TableOnce.Do(func() {
+		// the whole tables, once per run: every entry of the match / mismatch tables, times the largest scale
+		worst := 0
+		for qa := 0; qa < 94; qa++ {
+			for qb := 0; qb < 94; qb++ {
+				for _, v := range []int{obialign.VerifMatchScore(byte(qa), byte(qb)), obialign.VerifMismatchScore(byte(qa), byte(qb))} {
+					if v < 0 {
+						v = -v
+					}
+					if v > worst {
+						worst = v
+					}
+				}
+			}
+		}
+		stat(fmt.Sprintf("table:max-abs-entry<=%d", 1<<uint(bitsLen(worst))))
+		if worst*2 > 1<<20 {
+			addf("score.bound-2pow20", "largest table entry %d (x scale 1.5) is beyond 2^20", worst)
+		}
+	})
 
 	// ---- 1. PEAlign on the shared arena
 	var isLeft bool
@@ -1571,6 +2050,14 @@ func (c08) Exec(c string) (string, []Fail) {
 				oR, nR := ref.opt(false)
 				tL, tR := ref.pathScore(tp, true), ref.pathScore(tp, false)
 				hyp := (oL > oR && tL == oL && nL == 1) || (!(oL > oR) && tR == oR && nR == 1)
+				if cs.op == "pe" && r1 == "ok" && r3 == "ok" && r4 != "panic" && r4 != "fatal" && r4 != "hang" {
+					// both formulations of the uniqueness hypothesis, per scheme: here "the independent DP counts one
+					// optimal path and the true path reaches the optimum"; the model prints strictAlong of the true path
+					fmt.Fprintf(&sb, " sa=%d%d", b2i(tL == oL && nL == 1), b2i(tR == oR && nR == 1))
+					if (tL == oL && nL == 1) || (tR == oR && nR == 1) {
+						stat("errorfree:strict-some-scheme")
+					}
+				}
 				contained := (cs.a0 < cs.b0 && cs.a0+la > cs.b0+lb) || (cs.b0 < cs.a0 && cs.b0+lb > cs.a0+la)
 				if hyp {
 					stat("errorfree:exact-unique-optimum")
